@@ -253,4 +253,31 @@ theorem boxAxes_zip : ∀ (sh : List ℕ) (ss es : List ℚ), sh.length = ss.len
     · obtain ⟨a, ha, h⟩ := boxAxes_zip sh ss es (by simpa using h1) (by simpa using h2) se hse
       exact ⟨a, List.mem_cons_of_mem _ ha, h⟩
 
+/-! #### decidable form of the genericity hypothesis at the entry point (for concrete instances) -/
+
+theorem cross_iff_floor (s d t : ℚ) : Cross s d t ↔ ((⌊s + t * d⌋ : ℤ) : ℚ) = s + t * d := by
+  constructor
+  · rintro ⟨k, hk⟩; rw [hk, Int.floor_intCast]
+  · intro h; exact ⟨⌊s + t * d⌋, h.symm⟩
+
+def genEntryB (s e : List ℚ) (lo : ℚ) : Bool :=
+  (s.zip e).all fun se => decide (se.2 - se.1 = 0) ||
+    decide ((((se.1 + lo * (se.2 - se.1)).floor : ℤ) : ℚ) ≠ se.1 + lo * (se.2 - se.1))
+
+theorem genEntryB_spec (s e : List ℚ) (lo : ℚ) (h : genEntryB s e lo = true) :
+    ∀ se ∈ s.zip e, se.2 - se.1 ≠ 0 → ¬ Cross se.1 (se.2 - se.1) lo := by
+  intro se hse hd hc
+  unfold genEntryB at h
+  rw [List.all_eq_true] at h
+  have := h se hse
+  rw [Bool.or_eq_true, decide_eq_true_eq, decide_eq_true_eq] at this
+  rcases this with h0 | h1
+  · exact hd h0
+  · exact h1 ((cross_iff_floor _ _ _).mp hc)
+
+theorem traverse_eq (eps : ℚ) (shape : List ℕ) (s e : List ℚ) :
+    ResponseLos.traverse eps shape s e =
+      if (clipT shape s (dirOf s e)).2 - eps ≤ (clipT shape s (dirOf s e)).1 + eps then []
+      else traverseFrom shape s (dirOf s e) ((clipT shape s (dirOf s e)).1 + eps) ((clipT shape s (dirOf s e)).2 - eps) := rfl
+
 end NiftyVerif.ResponseLos
